@@ -2,8 +2,8 @@
     Statements only (proofs: KdqTree_Proofs.v).  Strength of each theorem:
       [structural]  every arithmetic instance [N], no hypothesis — hence also the bit-exact float model;
       [order-law]   under the law [fltb m x = negb (fleb x m)] (no NaN): both sides of a split agree;
-      [laws]        under [OrdLaws N] and the two midpoint laws [MidLaws] (true of exact arithmetic,
-                    violated by IEEE doubles only when min + (max-min)/2 rounds up to max);
+      [laws]        under [OrdLaws N] and the midpoint law [MidLaws] : lo <= hi -> lo <= lo + (hi-lo)/2
+                    (true of exact arithmetic and of rounding-monotone floating point);
       [exact]       on the rational instance [NumQ08].
     The divergence (scipy.stats.entropy, i.e. log) is a parameter [kl] of the model. *)
 From MV Require Import Base Num KdqTree KdqTree_Proofs.
@@ -21,7 +21,7 @@ Notation point := (point N).
 
 (** [structural] Whenever [build] does not run out of fuel its result is the tree specified by the
     relation [built]: empty data gives no node; a node becomes a leaf holding [n] points exactly when
-    the stop rule fires; otherwise it splits axis [depth mod m] at [min + (max - min)/2] of the
+    the (four-clause) stop rule fires; otherwise it splits axis [depth mod m] at [min + (max - min)/2] of the
     points it holds and its children are the trees of the [<= mid] / [> mid] parts. *)
 Theorem C08_build_spec : forall trunc cub clb m fuel (data : list point) t,
   build trunc cub clb m fuel data = (t, false) ->
@@ -34,6 +34,7 @@ Theorem C08_node_spec : forall m cub mins (data : list point) depth ax mid c l r
   built m cub mins data depth (Node ax mid c l r) ->
   (cub < len data)%Z /\ (cub < distinct (concat data))%Z /\
   fleb (cell_size ax data) (nth (Z.to_nat ax) mins f0) = false /\
+  fleb (col_max (column ax data)) mid = false /\
   ax = (depth mod m)%Z /\
   mid = col_min (column ax data) + (col_max (column ax data) - col_min (column ax data)) / fofZ 2 /\
   c = [(0%Z, (len (upper ax mid data) + len (lower ax mid data))%Z)] /\
@@ -41,7 +42,7 @@ Theorem C08_node_spec : forall m cub mins (data : list point) depth ax mid c l r
   built m cub mins (upper ax mid data) (depth + 1) r.
 Proof.
   intros m cub mins data depth ax mid c l r H.
-  destruct (built_split_reason m cub mins data depth _ H ax mid c l r eq_refl) as (A & B & C & D & E & G & I).
+  destruct (built_split_reason m cub mins data depth _ H ax mid c l r eq_refl) as (A & B & C & C' & D & E & G & I).
   repeat split; auto. inversion H; subst. reflexivity.
 Qed.
 
@@ -72,20 +73,30 @@ Proof.
 Qed.
 
 (** [laws] fuel adequacy and completeness: with at least as much fuel as points, [build_node] never
-    runs out of fuel, and the tree has no missing child (so its leaves partition the space). *)
+    runs out of fuel, and the tree has no missing child (so its leaves partition the space).  The
+    upper part of a split is non-empty by the last clause of the stop rule and the order laws alone;
+    the midpoint law is what makes the lower part non-empty. *)
 Theorem C08_fuel_adequate :
   forall (OL : OrdLaws N) (ML : @MidLaws N) m cub mins,
-  (forall k, fleb f0 (nth k mins f0) = true) ->
   forall fuel (data : list point) depth,
   (len data <= Z.of_nat fuel)%Z ->
   exists t, build_node m cub mins fuel data depth = (t, false) /\
             complete t /\ (data <> [] -> m <> 0%Z -> t <> Nil).
 Proof.
-  intros OL ML m cub mins Hmins fuel data depth Hl.
-  pose proof (build_fuel_ok OL ML m cub mins Hmins fuel data depth Hl) as Hf.
+  intros OL ML m cub mins fuel data depth Hl.
+  pose proof (build_fuel_ok OL ML m cub mins fuel data depth Hl) as Hf.
   destruct (build_node m cub mins fuel data depth) as [t b] eqn:E. simpl in Hf. subst b.
   exists t. split; [reflexivity|].
-  apply (built_complete OL ML m cub mins Hmins data depth t). eapply build_sound; eauto.
+  apply (built_complete OL ML m cub mins data depth t). eapply build_sound; eauto.
+Qed.
+
+(** [order-law] independently of any midpoint law: an internal node of a built tree always has a
+    right child (nothing is ever routed to a missing upper part) *)
+Theorem C08_upper_nonempty :
+  forall (OL : OrdLaws N) m cub mins (data : list point) depth ax mid c l r,
+  built m cub mins data depth (Node ax mid c l r) -> upper ax mid data <> [] /\ r <> Nil.
+Proof.
+  intros OL m cub mins data depth ax mid c l r H. exact (built_right_child OL m cub mins data depth ax mid c l r H).
 Qed.
 
 (** ------------------------------------------------------------------ fill *)
@@ -175,12 +186,11 @@ Qed.
 (** [laws] the tree [build] returns is a legitimate starting point of such a history *)
 Theorem C08_built_good :
   forall (OL : OrdLaws N) (ML : @MidLaws N) trunc cub clb m fuel (data : list point) t,
-  (forall k, fleb f0 (nth k (min_sizes trunc clb m data) f0) = true) ->
   data <> [] -> m <> 0%Z ->
   build trunc cub clb m fuel data = (t, false) -> good t.
 Proof.
-  intros OL ML trunc cub clb m fuel data t Hmins Hd Hm H. apply build_sound in H.
-  destruct (built_complete OL ML m cub _ Hmins data 0 t H) as [Hc Hn].
+  intros OL ML trunc cub clb m fuel data t Hd Hm H. apply build_sound in H.
+  destruct (built_complete OL ML m cub _ data 0 t H) as [Hc Hn].
   repeat split; auto. eapply built_sum_inv_all; eauto. apply (ltb_leb N OL).
 Qed.
 
@@ -285,6 +295,7 @@ Print Assumptions C08_node_spec.
 Print Assumptions C08_axis_cycles.
 Print Assumptions C08_build_counts.
 Print Assumptions C08_fuel_adequate.
+Print Assumptions C08_upper_nonempty.
 Print Assumptions C08_fill_frame.
 Print Assumptions C08_fill_accumulates_unless_reset.
 Print Assumptions C08_fill_unique_leaf.
